@@ -630,6 +630,8 @@ def show(v):
         return out + ["\n}"]
     if k == "fn":
         return ["<closure>" if v.get("lit") else "<function>"]
+    if k == "anymsg":
+        return [AnyMsg()]
     raise ValueError("cannot show %r" % k)
 
 
@@ -642,6 +644,10 @@ class Unordered:
 
 class AnyText:
     pass
+
+
+class AnyMsg:
+    """the text of a message the specification leaves to the host library"""
 
 
 def expected_pattern(out_events, entry="main"):
@@ -674,6 +680,8 @@ def expected_pattern(out_events, entry="main"):
                 parts.append(r"\{[^{}]*\}")
             elif isinstance(f, AnyText):
                 parts.append(r"<[^<>]*>")
+            elif isinstance(f, AnyMsg):
+                parts.append(r"[^\n]*")
     return "".join(parts), groups
 
 
